@@ -21,21 +21,31 @@ fn idx_of(st: &Rg, target: *const Rg) -> usize {
     chain(st).iter().position(|s| std::ptr::eq(*s as *const Rg, target)).expect("found registry is in the chain")
 }
 
-/// `parent()^d . try_borrow(_mut)::<K>()`, or the panicking variants (d = 0).
-fn borrow<'a>(st: &'a St, d: u64, k: u64, excl: bool, panicking: bool) -> Result<(usize, G<'a>), String> {
+/// `parent()^d . try_borrow(_mut)::<K>()`, or the panicking variants; with `value` the guard comes from the
+/// `*_value` accessors (`try_borrow_value`, `borrow_value`, `try_borrow_value_mut`, `borrow_value_mut`), which hand
+/// out a `Ref<T::Target>` / `RefMut<T::Target>` on the same cell.
+fn borrow<'a>(st: &'a St, d: u64, k: u64, excl: bool, panicking: bool, value: bool) -> Result<(usize, G<'a>), String> {
     let mut r: &'a Rg = &**st;
     for _ in 0..d { match r.parent() { Some(p) => r = p, None => return Err("noparent".into()) } }
     with_key!(k, T => {
         if excl {
-            let g = if panicking { match catch(|| r.borrow_mut::<T>()) { Some(g) => g, None => return Err("panic".into()) } }
-                    else { match r.try_borrow_mut::<T>() { Ok(g) => g, Err(e) => return Err(err_s(&e)) } };
+            let g: RefMut<'a, u64> = match (value, panicking) {
+                (false, true) => match catch(|| r.borrow_mut::<T>()) { Some(g) => RefMut::map(g, |x| &mut x.0), None => return Err("panic".into()) },
+                (false, false) => match r.try_borrow_mut::<T>() { Ok(g) => RefMut::map(g, |x| &mut x.0), Err(e) => return Err(err_s(&e)) },
+                (true, true) => match catch(|| r.borrow_value_mut::<T>()) { Some(g) => g, None => return Err("panic".into()) },
+                (true, false) => match r.try_borrow_value_mut::<T>() { Ok(g) => g, Err(e) => return Err(err_s(&e)) },
+            };
             let at = r.find::<T>().map(|x| x as *const Rg).unwrap();
-            Ok((idx_of(st, at), G::W(RefMut::map(g, |x| &mut x.0))))
+            Ok((idx_of(st, at), G::W(g)))
         } else {
-            let g = if panicking { match catch(|| r.borrow::<T>()) { Some(g) => g, None => return Err("panic".into()) } }
-                    else { match r.try_borrow::<T>() { Ok(g) => g, Err(e) => return Err(err_s(&e)) } };
+            let g: Ref<'a, u64> = match (value, panicking) {
+                (false, true) => match catch(|| r.borrow::<T>()) { Some(g) => Ref::map(g, |x| &x.0), None => return Err("panic".into()) },
+                (false, false) => match r.try_borrow::<T>() { Ok(g) => Ref::map(g, |x| &x.0), Err(e) => return Err(err_s(&e)) },
+                (true, true) => match catch(|| r.borrow_value::<T>()) { Some(g) => g, None => return Err("panic".into()) },
+                (true, false) => match r.try_borrow_value::<T>() { Ok(g) => g, Err(e) => return Err(err_s(&e)) },
+            };
             let at = r.find::<T>().map(|x| x as *const Rg).unwrap();
-            Ok((idx_of(st, at), G::R(Ref::map(g, |x| &x.0))))
+            Ok((idx_of(st, at), G::R(g)))
         }
     })
 }
@@ -68,9 +78,10 @@ fn run_case(input: &Sx) -> String {
             let (name, a) = ops[i].head().unwrap();
             match name {
                 "ex" => { if live.is_empty() { break; } outs.push("illegal".into()); }
-                "bor" | "bormut" | "borp" | "bormutp" | "parbor" | "parbormut" => {
+                "bor" | "bormut" | "borp" | "bormutp" | "parbor" | "parbormut"
+                | "borv" | "borvmut" | "borvp" | "borvmutp" | "parborv" | "parborvmut" => {
                     let (d, k) = if name.starts_with("par") { (n(a, 0), n(a, 1)) } else { (0, n(a, 0)) };
-                    match borrow(st, d, k, name.contains("mut"), name.ends_with('p')) {
+                    match borrow(st, d, k, name.contains("mut"), name.ends_with('p'), name.contains("borv")) {
                         Ok((idx, g)) => { live.push(Live { id: next, idx, key: k, g }); outs.push(format!("(g {next})")); next += 1; }
                         Err(e) => outs.push(e),
                     }
@@ -118,6 +129,12 @@ fn guard_alphabet(full: bool) -> Vec<String> {
     v
 }
 
+/// Guards handed out by the `*_value` accessors next to guards of the plain accessors on the same cells.
+fn value_guard_alphabet() -> Vec<String> {
+    ["(borv 0)", "(borvmut 0)", "(bor 0)", "(bormut 0)", "(borvp 0)", "(borvmutp 0)", "(parborv 1 0)", "(parborvmut 1 0)",
+     "(borv 1)", "(drop 0)", "(drop 1)", "(rd 0)", "(wr 0 9)", "(sh (tryget 0))", "(sh (set 0 7))"].iter().map(|s| s.to_string()).collect()
+}
+
 /// All statements of nesting depth `depth` (exactly): at each level a helper kind, ok/err, one body operation.
 fn nests(depth: usize, body_ops: &[&str]) -> Vec<(String, bool)> {
     let mut out = vec![];
@@ -149,7 +166,10 @@ impl Gen {
     fn key(&mut self) -> u64 { if self.rng.chance(3, 4) { self.rng.below(2) } else { self.rng.below(4) } }
     fn rop_mut(&mut self) -> String {
         let (k, v) = (self.key(), self.rng.range(1, 50));
-        match self.rng.below(12) {
+        match self.rng.below(14) {
+            // value access next to a guard on the same type (guard acquired, access, guard dropped)
+            12 => format!("(gset {k} {v})"),
+            13 => format!("(gget {k})"),
             0..=2 => format!("(ins {k} {v})"),
             3 => format!("(rem {k})"),
             4 => format!("(ent-mod-orins {k} 1 {v})"),
@@ -193,19 +213,25 @@ impl Gen {
         let k = self.key();
         let g = if !self.live.is_empty() && self.rng.chance(9, 10) { *self.rng.pick(&self.live) } else { self.rng.below(self.next + 1) };
         match self.rng.below(100) {
-            0..=13 => format!("(bor {k})"),
-            14..=23 => format!("(bormut {k})"),
-            24..=25 => format!("(borp {k})"),
-            26..=27 => format!("(bormutp {k})"),
-            28..=33 => format!("(parbor {} {k})", self.rng.below(3)),
-            34..=37 => format!("(parbormut {} {k})", self.rng.below(3)),
+            0..=9 => format!("(bor {k})"),
+            10..=13 => format!("(borv {k})"),
+            14..=20 => format!("(bormut {k})"),
+            21..=23 => format!("(borvmut {k})"),
+            24 => format!("(borp {k})"),
+            25 => format!("(borvp {k})"),
+            26 => format!("(bormutp {k})"),
+            27 => format!("(borvmutp {k})"),
+            28..=31 => format!("(parbor {} {k})", self.rng.below(5)),
+            32..=33 => format!("(parborv {} {k})", self.rng.below(5)),
+            34..=36 => format!("(parbormut {} {k})", self.rng.below(5)),
+            37 => format!("(parborvmut {} {k})", self.rng.below(5)),
             38..=55 => { self.live.retain(|&x| x != g); format!("(drop {g})") }
             56..=63 => format!("(rd {g})"),
             64..=71 => format!("(wr {g} {})", self.rng.range(1, 50)),
             72..=75 => format!("(sh (tryget {k}))"),
             76..=78 => format!("(sh (get {k}))"),
             79..=82 => format!("(sh (set {k} {}))", self.rng.range(1, 50)),
-            83 => format!("(sh (parget {} {k}))", self.rng.below(3)),
+            83 => format!("(sh (parget {} {k}))", self.rng.below(5)),
             84 => format!("(sh (find {k}))"),
             85..=86 => "(locks)".into(),
             _ => format!("(ex {})", self.stmt(0)),
@@ -247,6 +273,20 @@ fn main() {
                 ops.extend(seq);
                 ops.push("(locks)".into());
                 emit(site, ops);
+            });
+        }
+    }
+
+    // 1b. the `*_value` accessors as guard sources, mixed with the plain ones
+    {
+        let alpha = value_guard_alphabet();
+        let len = if a.thorough { 4 } else { 3 };
+        for prefix in &prefixes {
+            product(&alpha, len, |seq| {
+                let mut ops = prefix.clone();
+                ops.extend(seq);
+                ops.push("(locks)".into());
+                emit("vguards", ops);
             });
         }
     }
@@ -304,7 +344,7 @@ fn main() {
     }
 
     // 3. nestings of holding / with_inner_state to depth 3, ok/err at each level
-    let body_ops: Vec<&str> = if a.thorough { vec!["", "(ins 0 9)", "(rem 0)", "(set 1 7)", "(ins 1 8)", "(rem 1)"] }
+    let body_ops: Vec<&str> = if a.thorough { vec!["", "(ins 0 9)", "(rem 0)", "(set 1 7)", "(ins 1 8)", "(rem 1)", "(gset 1 5)", "(gget 0)"] }
                               else { vec!["", "(ins 0 9)", "(rem 1)"] };
     let hprefixes: Vec<Vec<String>> = vec![
         vec![ex("(ins 0 1)"), ex("(ins 1 2)")],
@@ -333,14 +373,21 @@ fn main() {
     }
 
     // 4. seeded random machine histories
-    let n_rand = if a.thorough { 20000 } else { 600 };
+    let n_rand = if a.thorough { 20000 } else { 1000 };
     let mut g = Gen { rng: Sm::new(a.seed), live: vec![], next: 0, held: vec![] };
     for _ in 0..n_rand {
         g.live.clear();
         g.next = 0;
         let len = g.rng.range(20, 80) as usize;
         let mut ops = vec![ex("(ins 0 1)"), ex("(ins 1 2)")];
+        // up to 6 scopes; each further scope shadows a random subset of the two main types
         if g.rng.chance(1, 2) { ops.push(ex("(push)")); ops.push(ex("(ins 0 3)")); }
+        if g.rng.chance(1, 3) {
+            for lvl in 0..g.rng.range(1, 4) {
+                ops.push(ex("(push)"));
+                for k in 0..2u64 { if g.rng.chance(1, 2) { ops.push(ex(&format!("(ins {k} {})", 60 + 2 * lvl + k))); } }
+            }
+        }
         for _ in 0..len {
             let o = g.mop();
             // the generator's view of which guards are alive is approximate (it does not know which requests
